@@ -6,10 +6,12 @@ package main
 
 import (
 	"bytes"
+	"encoding/json"
 	"errors"
 	"flag"
 	"fmt"
 	"os"
+	"path/filepath"
 	"runtime"
 	"strconv"
 	"strings"
@@ -58,13 +60,16 @@ func (r *recorder) add(kind, s string, n int) {
 // ---------- connection ----------
 
 type conn struct {
-	rec    *recorder
-	r      *runner
-	gen    int32 // serve cycle this connection was created for
-	sendMu sync.RWMutex // held (R) by the harness while it delivers a message, (W) by Close
-	mu     sync.Mutex
-	inCh   chan *nats.Msg
-	closed bool
+	rec       *recorder
+	r         *runner
+	gen       int32         // serve cycle this connection was created for
+	failSub   bool          // every subscription is refused (scenario d9)
+	closeGate chan struct{} // when set, Close blocks on it after marking the connection closed (scenario d9)
+	closing   chan struct{} // closed when Close has been entered (scenario d9)
+	sendMu    sync.RWMutex  // held (R) by the harness while it delivers a message, (W) by Close
+	mu        sync.Mutex
+	inCh      chan *nats.Msg
+	closed    bool
 }
 
 func (c *conn) Publish(subject string, payload []byte) error {
@@ -76,6 +81,15 @@ func (c *conn) Publish(subject string, payload []byte) error {
 		}
 		if subject == "system.reset" {
 			atomic.AddInt32(&c.r.resets[c.gen%8], 1)
+		}
+		if len(subject) > 1 && subject[0] == 'R' {
+			// the notFound reply of a request for an unmatched resource is its whole callback: stretch it a
+			// little, so that two such callbacks of one name would overlap if they were not serialised
+			if n, err := strconv.Atoi(subject[1:]); err == nil {
+				if _, ok := c.r.unmatched.Load(n); ok {
+					time.Sleep(150 * time.Microsecond)
+				}
+			}
 		}
 	}
 	c.mu.Lock()
@@ -91,6 +105,10 @@ func (c *conn) ChanSubscribe(subject string, ch chan *nats.Msg) (*nats.Subscript
 	if c.closed {
 		c.mu.Unlock()
 		return nil, errors.New("connection closed") // like nats.ErrConnectionClosed
+	}
+	if c.failSub {
+		c.mu.Unlock()
+		return nil, errors.New("subscription refused")
 	}
 	if c.inCh == nil {
 		c.inCh = ch
@@ -108,6 +126,12 @@ func (c *conn) Close() {
 	c.closed = true
 	c.mu.Unlock()
 	c.sendMu.Unlock()
+	if c.closing != nil {
+		close(c.closing)
+	}
+	if c.closeGate != nil {
+		<-c.closeGate
+	}
 	if c.r != nil {
 		if f, _ := c.r.onConnClose.Load().(func()); f != nil {
 			f()
@@ -153,18 +177,19 @@ type runner struct {
 		mu sync.Mutex
 		q  []submission
 	}
-	prodGids  sync.Map // goid -> true for harness producer goroutines and workers doing nested submissions
-	nextCb    int32
-	cbGroup   sync.Map // c -> group string
-	occupancy sync.Map // group -> *int32
-	impl      []ImplViolation
-	implMu    sync.Mutex
-	gateFn    atomic.Value    // func(pt string)
-	scratch   map[string]*int // per-group memory written WITHOUT synchronisation by the callbacks (race-detector runs)
-	shutdowns int32
-	dfltCtr   int32
-	curGen    int32
-	resets    [8]int32     // system.reset messages seen per connection generation
+	prodGids    sync.Map // goid -> true for harness producer goroutines and workers doing nested submissions
+	nextCb      int32
+	cbGroup     sync.Map // c -> group string
+	occupancy   sync.Map // group -> *int32
+	impl        []ImplViolation
+	implMu      sync.Mutex
+	gateFn      atomic.Value    // func(pt string)
+	scratch     map[string]*int // per-group memory written WITHOUT synchronisation by the callbacks (race-detector runs)
+	shutdowns   int32
+	dfltCtr     int32
+	curGen      int32
+	unmatched   sync.Map     // c -> true for requests sent to a resource no handler matches
+	resets      [8]int32     // system.reset messages seen per connection generation
 	onConnClose atomic.Value // func(), called at the end of conn.Close
 }
 
@@ -286,10 +311,15 @@ func (r *runner) sendRequest(cn *conn, inCh chan *nats.Msg, g string) (ok bool) 
 	c := r.newCb(g)
 	// handler pattern: item.$c.$g  with Group("${g}") ; group "" is not expressible as a token -> use Parallel resource par.$c
 	var subj string
-	if c%6 == 0 {
+	if c%6 == 0 || (r.sc.Seed%4 == 0 && c%2 == 0) {
 		// a request for a resource no handler matches: still enqueued (group = resource name) and answered
-		// with system.notFound by a worker
-		g = fmt.Sprintf("svc.none.%d", c)
+		// with system.notFound by a worker; few names, so that requests for the SAME unmatched name form one
+		// group (every fourth scenario sends every second request to one unmatched name)
+		g = fmt.Sprintf("svc.none.%d", (c/6)%2)
+		if r.sc.Seed%4 == 0 {
+			g = "svc.none.0"
+		}
+		r.unmatched.Store(c, true)
 		r.cbGroup.Store(c, g)
 		subj = "get." + g
 	} else if g == "" {
@@ -422,6 +452,12 @@ func (r *runner) run() bool {
 	verifhook.SetGate(r.gate)
 	verifhook.SetPerturb(sc.Perturb)
 	defer verifhook.SetPerturb(0)
+	if sc.Kind == "d9" {
+		return r.runD9()
+	}
+	if sc.Kind == "restartloop" {
+		return r.runRestartLoop()
+	}
 	c := &conn{rec: r.rec, r: r}
 	s := r.newService(c)
 	r.s = s
@@ -856,6 +892,241 @@ func (r *runner) run() bool {
 	return true
 }
 
+// runD9: the first Serve fails to subscribe (the library then shuts the service down by itself) while either a With
+// callback submitted during the short started window is still executing (variant 0), or the first connection's Close
+// is slow (variant 1); the application retries Serve on a new connection in a loop. A retry must be refused as
+// not-stopped until the first cycle is completely over, and the second cycle must then give all the guarantees:
+// no callback of the first cycle overlaps a same-group callback of the second, submissions are accepted, the
+// start-up system.reset is on the new connection, Shutdown returns nil and Serve returns. Runtime checks only
+// (the label trace of this scenario is not converted).
+func (r *runner) runD9() bool {
+	sc := r.sc
+	variant := sc.Seed % 2
+	g := "g1"
+	c1 := &conn{rec: r.rec, r: r, gen: 0, failSub: true, closing: make(chan struct{})}
+	closeGate := make(chan struct{})
+	if variant == 1 {
+		c1.closeGate = closeGate
+	}
+	s := r.newService(c1)
+	s.SetLogger(logger.NewMemLogger())
+	r.s = s
+	release := make(chan struct{})
+	inCb := make(chan struct{})
+	var once, released int32
+	cb1 := r.newCb(g)
+	s.SetOnError(func(_ *res.Service, msg string) {
+		if variant != 0 || !strings.Contains(msg, "ubscribe") || !atomic.CompareAndSwapInt32(&once, 0, 1) {
+			return
+		}
+		r.pushSub(g, cb1)
+		err := s.With(fmt.Sprintf("svc.item.%d.%s", cb1, g), func(res.Resource) {
+			r.rec.add("run", g, cb1)
+			v, _ := r.occupancy.LoadOrStore(g, new(int32))
+			if atomic.AddInt32(v.(*int32), 1) > 1 {
+				r.violation("group-overlap: two callbacks of group " + g + " executing at once")
+			}
+			close(inCb)
+			<-release
+			atomic.AddInt32(v.(*int32), -1)
+			r.rec.add("ret", g, cb1)
+		})
+		if err != nil {
+			close(inCb) // refused: nothing is in flight
+			return
+		}
+		// stay inside the error callback (serve() is waiting for it) until the callback has been taken by a worker:
+		// otherwise the shutdown that follows may legitimately drop it before it starts
+		select {
+		case <-inCb:
+		case <-time.After(time.Second):
+		}
+	})
+	releaseAll := func() {
+		if atomic.CompareAndSwapInt32(&released, 0, 1) {
+			close(release)
+			close(closeGate)
+		}
+	}
+	defer releaseAll()
+	served1 := make(chan error, 1)
+	go func() { served1 <- s.Serve(c1) }()
+	if variant == 0 {
+		select {
+		case <-inCb:
+		case <-time.After(2 * time.Second):
+		}
+	} else {
+		select {
+		case <-c1.closing:
+		case <-time.After(2 * time.Second):
+		}
+	}
+	// retry loop
+	c2 := &conn{rec: r.rec, r: r, gen: 1}
+	served2 := make(chan error, 1)
+	holdUntil := time.Now().Add(60 * time.Millisecond)
+	giveUp := time.Now().Add(4 * time.Second)
+	serving := false
+	for !serving {
+		if time.Now().After(giveUp) {
+			r.violation("restart-refused: Serve was still refused 4 s after the failed first start was over")
+			return false
+		}
+		go func() { served2 <- s.Serve(c2) }()
+		select {
+		case <-served2:
+			if time.Now().After(holdUntil) {
+				releaseAll()
+			}
+			time.Sleep(300 * time.Microsecond)
+		case <-time.After(25 * time.Millisecond):
+			serving = true
+		}
+	}
+	atomic.StoreInt32(&r.curGen, 1)
+	for i := 0; i < 2000 && atomic.LoadInt32(&r.resets[1]) == 0; i++ {
+		time.Sleep(100 * time.Microsecond)
+	}
+	if atomic.LoadInt32(&r.resets[1]) == 0 {
+		r.violation("no-reset: the retried Serve did not publish system.reset on the connection it was given")
+	}
+	early := atomic.LoadInt32(&released) == 0 // served again although the first cycle was still held open
+	if early {
+		for k := 0; k < 2; k++ {
+			r.submitPlain(g)
+		}
+		r.settle(300 * time.Millisecond)
+		releaseAll()
+		time.Sleep(20 * time.Millisecond)
+	}
+	for k := 0; k < 3; k++ {
+		r.submitPlain(g)
+	}
+	c2.mu.Lock()
+	inCh := c2.inCh
+	c2.mu.Unlock()
+	if inCh != nil {
+		r.sendRequest(c2, inCh, g)
+	}
+	r.settle(2 * time.Second)
+	select {
+	case <-served1:
+	case <-time.After(5 * time.Second):
+		r.violation("serve-hang: the first (failed) Serve did not return")
+		return false
+	}
+	done := make(chan error, 1)
+	go func() { done <- s.Shutdown() }()
+	select {
+	case err := <-done:
+		if err != nil {
+			r.violation("shutdown-error: Shutdown of the served service returned: " + err.Error())
+		}
+	case <-time.After(5 * time.Second):
+		r.violation("shutdown-hang: Shutdown did not return within 5s")
+		return false
+	}
+	select {
+	case <-served2:
+	case <-time.After(5 * time.Second):
+		r.violation("serve-hang: Serve did not return after Shutdown")
+		return false
+	}
+	if !c2.isClosed() {
+		r.violation("not-closed: the connection of the second cycle was not closed by Shutdown")
+	}
+	return true
+}
+
+// runRestartLoop: many stop/start cycles in which Serve is called again as soon as Shutdown has returned (the service
+// is stopped then), without waiting for the previous Serve call to return. The new Serve must be accepted and must
+// not panic, the previous Serve call must return although a new cycle is being served, and each cycle publishes its
+// start-up system.reset on its own connection. Shutdown is only called once the cycle's start-up is complete
+// (Shutdown during Serve's own start-up is not among the concurrent uses C03 lists). Runtime checks only.
+func (r *runner) runRestartLoop() bool {
+	sc := r.sc
+	rounds := sc.PerProd
+	c := &conn{rec: &recorder{}, r: r, gen: 0}
+	s := r.newService(c)
+	r.s = s
+	served := make(chan error, 1)
+	go func() { served <- s.Serve(c) }()
+	waitReset := func(gen int) bool {
+		for i := 0; i < 20000; i++ {
+			if atomic.LoadInt32(&r.resets[gen%8]) > 0 {
+				return true
+			}
+			time.Sleep(100 * time.Microsecond)
+		}
+		return false
+	}
+	if !waitReset(0) {
+		r.violation("no-reset: Serve did not publish system.reset")
+		return false
+	}
+	late := 0
+	for i := 1; i <= rounds; i++ {
+		atomic.StoreInt32(&r.resets[(i+1)%8], 0)
+		if err := s.Shutdown(); err != nil {
+			r.violation(fmt.Sprintf("shutdown-error: round %d: Shutdown of the served service returned: %v", i, err))
+			return false
+		}
+		cn := &conn{rec: c.rec, r: r, gen: int32(i)}
+		atomic.StoreInt32(&r.curGen, int32(i))
+		next := make(chan error, 1)
+		go func() {
+			defer func() {
+				if v := recover(); v != nil {
+					r.violation(fmt.Sprintf("panic: Serve, called right after Shutdown had returned, panicked: %v", v))
+					next <- nil
+				}
+			}()
+			next <- s.Serve(cn)
+		}()
+		if !waitReset(i) {
+			select {
+			case err := <-next:
+				r.violation(fmt.Sprintf("restart-refused: round %d: Serve after Shutdown had returned came back with: %v", i, err))
+			default:
+				r.violation(fmt.Sprintf("no-reset: round %d: the new cycle did not publish system.reset", i))
+			}
+			return false
+		}
+		select {
+		case <-served:
+		case <-time.After(300 * time.Millisecond):
+			late++
+			if late == 1 {
+				r.violation(fmt.Sprintf("serve-late: round %d: the previous Serve call had not returned 300 ms after Shutdown returned and a new cycle was being served", i))
+			}
+		}
+		served = next
+		if i%64 == 0 {
+			r.submitPlain("g1")
+		}
+	}
+	ok := r.shutdown(s)
+	if ok {
+		select {
+		case <-served:
+		case <-time.After(5 * time.Second):
+			r.violation("serve-hang: Serve did not return after Shutdown")
+			return false
+		}
+	}
+	return ok
+}
+
+// submitPlain submits one callback to group g through With and reports a refusal (the service is being served).
+func (r *runner) submitPlain(g string) {
+	c := r.newCb(g)
+	r.pushSub(g, c)
+	if err := r.s.With(fmt.Sprintf("svc.item.%d.%s", c, g), func(res.Resource) { r.body(c, g, false) }); err != nil {
+		r.violation("with-error: With on a served service reported: " + err.Error())
+	}
+}
+
 // ---------- log -> labels ----------
 
 type conv struct {
@@ -1126,9 +1397,10 @@ func runScenario(sc scenario) (Case, []ImplViolation, bool) {
 	r.rec.mu.Unlock()
 	cv := &conv{r: r, widx: map[uint64]int{}, retired: map[uint64]bool{}, running: map[uint64]int{}, prod: map[uint64]int{},
 		pub: map[uint64]int{}, subIdx: map[uint64]int{}, groupNum: map[string]int{}, svc: "stopped"}
-	err := cv.convert(log)
-	if err != nil {
-		r.violation("harness-conversion: " + err.Error())
+	if sc.Kind != "d9" && sc.Kind != "restartloop" {
+		if err := cv.convert(log); err != nil {
+			r.violation("harness-conversion: " + err.Error())
+		}
 	}
 	var groups []string
 	r.cbGroup.Range(func(k, v interface{}) bool {
@@ -1213,9 +1485,24 @@ func main() {
 			scs = append(scs, scenario{Kind: "burst", Workers: []int{2, 4, 32}[rng.Intn(3)], InCh: 1024, Producers: 4 + rng.Intn(3),
 				PerProd: 250, Groups: []string{"g1"}, Cycles: 1, Shutdown: []string{"none", "after"}[rng.Intn(2)], Seed: rng.Next() % 1000000})
 		}
+		nrl := 0
+		if *prop == "C03" {
+			nrl = 1
+			if o.Tier == "thorough" {
+				nrl = 6
+			}
+		}
+		for i := 0; i < nrl; i++ {
+			scs = append(scs, scenario{Kind: "restartloop", Workers: []int{1, 2, 4}[rng.Intn(3)], InCh: 1024, PerProd: 1500, Groups: []string{"g1"},
+				Cycles: 1500, Shutdown: "after", Seed: rng.Next() % 1000000})
+		}
 		nd := 4
 		if o.Tier == "thorough" {
 			nd = 60
+		}
+		for i := 0; i < nd; i++ {
+			scs = append(scs, scenario{Kind: "d9", Workers: []int{1, 2, 32}[rng.Intn(3)], InCh: 1024, Groups: []string{"g1"},
+				Cycles: 2, Shutdown: "after", Seed: rng.Next()%1000000/2*2 + uint64(i%2)})
 		}
 		for i := 0; i < nd; i++ {
 			scs = append(scs, scenario{Kind: "d8", Workers: []int{1, 2, 32}[rng.Intn(3)], InCh: 1024, Groups: groupSets[rng.Intn(3)],
@@ -1230,6 +1517,11 @@ func main() {
 		}
 	}
 	for _, sc := range scs {
+		// if the process dies inside the library (a panic on one of its own goroutines cannot be recovered here),
+		// the driver reports the scenario that was running as the failing input
+		if b, err := json.Marshal(map[string]interface{}{"desc": sc}); err == nil {
+			os.WriteFile(filepath.Join(o.Out, "current_case.json"), b, 0o644)
+		}
 		c, iv, alive := runScenario(sc)
 		dist[sc.Kind]++
 		dist["shutdown-"+sc.Shutdown]++
@@ -1243,6 +1535,7 @@ func main() {
 			break
 		}
 	}
+	os.Remove(filepath.Join(o.Out, "current_case.json"))
 	runMod := *prop
 	if runMod == "C16" {
 		runMod = "C01" // race-detector mode: the traces are a by-product
@@ -1263,7 +1556,7 @@ func main() {
 	}
 	hdr := "From stdpp Require Import gmap.\nFrom Coq Require Import NArith String.\nFrom GoRes Require Import Run.Run_" + runMod + ".\nLocal Open Scope string_scope."
 	Emit(o, *prop, hdr, "scase",
-		"real res.Service runs (worker counts 1/2/3/8/32, in-channel 1/2/1024, 1-6 producer goroutines using WithGroup incl. nested submissions from callbacks, requests through the in-channel incl. Parallel resources, publishers, 1-3 serve/shutdown cycles, shutdown after/during/none, seeded schedule perturbation at hook points) + directed schedules d1-d8 (enqueue after close-nil, publish after shutdown, append before re-lock, parked Signal, producers during parked close, ResetAll during Serve start-up, query expiry during Shutdown with a same-group callback in flight, an in-flight callback emitting an event and a query event after the connection was closed followed by a serve cycle on a new connection) + simultaneous submissions to an idle group behind a spin barrier (burst) + high-contention stress runs (thousands of tiny callbacks on 1-2 groups); every serve cycle gets a fresh connection object and anything published on an earlier one is a violation; one case = one run's label trace; non-trivial = a callback was appended to a live work item and >= 2 workers took work, or a directed schedule; distinct by trace",
+		"real res.Service runs (worker counts 1/2/3/8/32, in-channel 1/2/1024, 1-6 producer goroutines using WithGroup incl. nested submissions from callbacks, requests through the in-channel incl. Parallel resources, publishers, 1-3 serve/shutdown cycles, shutdown after/during/none, seeded schedule perturbation at hook points) + directed schedules d1-d9 (enqueue after close-nil, publish after shutdown, append before re-lock, parked Signal, producers during parked close, ResetAll during Serve start-up, query expiry during Shutdown with a same-group callback in flight, an in-flight callback emitting an event and a query event after the connection was closed followed by a serve cycle on a new connection; d9: first Serve refused its subscriptions while a With callback from the started window is in flight or the first Close is slow, Serve retried in a loop on a new connection - runtime checks only; restartloop (C03 only): 1500 stop/start cycles with Serve called as soon as Shutdown has returned - runtime checks only) + simultaneous submissions to an idle group behind a spin barrier (burst) + high-contention stress runs (thousands of tiny callbacks on 1-2 groups); every serve cycle gets a fresh connection object and anything published on an earlier one is a violation; one case = one run's label trace; non-trivial = a callback was appended to a live work item and >= 2 workers took work, or a directed schedule; distinct by trace",
 		cases, dist, nil, impl, 40)
 	if len(impl) > 0 {
 		fmt.Fprintln(os.Stderr, "impl violations:", len(impl))
